@@ -102,7 +102,7 @@ def observe(text, suppressed=True):
     return o
 
 
-def judge(text, o, field_line=None, notes=None):
+def judge(text, o, field_line=None, notes=None, allowed_lines=None):
     """Generic clauses (a), (c), (d).  -> [(kind, description)]"""
     P = []
     lines = B.split_lines(text)
@@ -141,6 +141,9 @@ def judge(text, o, field_line=None, notes=None):
         if field_line is not None and line != MUT_LINE + field_line:
             P.append(('wrong-line', 'line %d reported, the offending field stands on line %d: %s' % (
                 line, MUT_LINE + field_line, what)))
+        if allowed_lines is not None and (line - MUT_LINE) not in allowed_lines:
+            P.append(('wrong-line', 'line %d reported, the only offending text stands on line(s) %s: %s' % (
+                line, [MUT_LINE + i for i in allowed_lines], what)))
         src = lines[line - MUT_LINE]
         if r['marker_line'] is not None and r['marker_pos'] is not None and not deprecated_tag_line(src):
             quoted = r['marker_line']
@@ -450,13 +453,23 @@ def degenerate():
     return D
 
 
+def deprecated_shapes():
+    """(text, allowed diagnostic lines): deprecated tag form with no parameter / tag before it, something after it."""
+    return [(t, info['offending']) for t, info in B.deprecated_tag_blocks()]
+
+
 def _work_texts(chunk):
     part = Part()
     good_views()
     for did, text in chunk:
+        allowed = None
+        if isinstance(text, tuple):
+            text, allowed = text
         o = observe(text, True)
         notes = []
-        P = judge(text, o, notes=notes)
+        P = judge(text, o, notes=notes, allowed_lines=allowed)
+        if allowed is not None and o.exc is None and 'foo_bar' not in o.blocks:
+            P.append(('lost-block', 'syntactically ordinary block using a deprecated tag form was dropped'))
         P += judge_warn_error(text, o)
         part.add(states=1, transitions=1, evaluations=3, traces_validated_against_impl=1, warn_error_runs=1,
                  unspecified=len(notes))
@@ -464,7 +477,7 @@ def _work_texts(chunk):
             part.add(distinct_nontrivial=1)
         part.outcome('deg/%s' % '|'.join(sorted(set(_norm(r['text']) for r in o.recs))))
         for kind, desc in P:
-            _report(part, kind, desc, text, {'family': 'text', 'id': 'degenerate/%s' % did})
+            _report(part, kind, desc, text, {'family': 'text', 'id': 'degenerate/%s' % did, 'allowed_lines': allowed})
         if did % 17 == 0:
             part.sample({'family': 'degenerate', 'comment': text})
     return part.result()
@@ -637,14 +650,14 @@ def run(ctx):
     ctx.set(rule='(i) every string over %r up to the stated length as the annotation field of the identifier / '
                  'parameter / Returns line of a fixed skeleton (inline and on a continuation line); (ii) every single '
                  'edit (20 insertable characters x every position, every deletion, every truncation, every line '
-                 'duplicated/deleted/swapped) of %d well-formed blocks from C10\'s generator; (iii) %d degenerate blocks. '
+                 'duplicated/deleted/swapped) of %d well-formed blocks from C10\'s generator; (iii) %d degenerate blocks and %d ordinary blocks with a deprecated tag form. '
                  'Each input is parsed by the real parse_comment_blocks between two clean blocks with display on and '
                  'off and judged by clauses (a)-(d) of the module docstring. states = distinct inputs, transitions = '
                  'extension/edit steps, non-trivial = inputs with a decided annotation outcome or at least one judged '
-                 'diagnostic' % (''.join(SIGMA), len(bases), len(degenerate())),
+                 'diagnostic' % (''.join(SIGMA), len(bases), len(degenerate()), len(deprecated_shapes())),
             bounds={'alphabet': ''.join(SIGMA), 'field_len_inline': n_single, 'field_len_continuation': n_cont,
                     'field_len_with_suppressed_rerun': n_double, 'field_positions': 3, 'edit_base_blocks': len(bases),
-                    'insert_chars': len(INSERT_CHARS), 'degenerate_blocks': len(degenerate()),
+                    'insert_chars': len(INSERT_CHARS), 'degenerate_blocks': len(degenerate()), 'deprecated_tag_blocks': len(deprecated_shapes()),
                     'warn_error_runs': 'all degenerate blocks; all field strings up to length %d in 3 positions x 2 '
                                        'placements; every edit of %d base block(s)' % (n_we, 1 if not thorough else 3)})
     only = [f for f in os.environ.get('VERIF_FAMILIES', '').split(',') if f]
@@ -663,7 +676,7 @@ def run(ctx):
     for r in pmap(_work_edits, rotate(chunks, ctx.seed)):
         ctx.merge(r)
     # (iii)
-    D = list(enumerate(degenerate())) if not only or 'iii' in only else []
+    D = list(enumerate(degenerate() + deprecated_shapes())) if not only or 'iii' in only else []
     for r in pmap(_work_texts, rotate([D[i::16] for i in range(16) if D[i::16]], ctx.seed)):
         ctx.merge(r)
     # warn-error over short field strings
@@ -703,7 +716,9 @@ def replay(ctx, case):
         P, cls, _ = judge_field(case['S'], case['pos'], case['placement'], text, fl, o)
         print('class:', cls)
     else:
-        P = judge(text, o)
+        P = judge(text, o, allowed_lines=case.get('allowed_lines'))
+        if case.get('allowed_lines') is not None and o.exc is None and 'foo_bar' not in o.blocks:
+            P.append(('lost-block', 'syntactically ordinary block using a deprecated tag form was dropped'))
     P += judge_warn_error(text, o)
     print('exception:', o.exc)
     print('blocks:', json.dumps(dict((k, B.abstract(v)) for k, v in (o.blocks or {}).items())))
